@@ -954,17 +954,11 @@ def _join_non_none(primacy, other):""")]),
 fill = partial(_fill_at_blanks, width=line_length)""")]),
     dict(id="wrapcont-fill-after-indent", kind=B, props=["C18"], expect="WRAP-CONT", edits=[("docstring_utils.py",
          """                    indent(
-                        _fill(
-                            set_default_doc(
-                                (name, _param), emit_default_doc=emit_default_doc
-                            )[1]["doc"]
-                        ),
+                        _fill(doc),
                         tab,
                     )""", """                    _fill(
                         indent(
-                            set_default_doc(
-                                (name, _param), emit_default_doc=emit_default_doc
-                            )[1]["doc"],
+                            doc,
                             tab,
                         )
                     )""")]),
@@ -984,25 +978,17 @@ fill = partial(_fill_at_blanks, width=line_length)""")]),
     dict(id="wrapcont-via-local", kind=N, props=["C18"], expect="silent", edits=[("docstring_utils.py",
          """    elif style == "numpydoc":
         return "\\n".join(""", """    elif style == "numpydoc":
-        wrapped_doc = _fill(set_default_doc((name, _param), emit_default_doc=emit_default_doc)[1]["doc"]) if emit_doc and _param.get("doc") else None
+        wrapped_doc = _fill(doc) if emit_doc and doc else None
         return "\\n".join("""), ("docstring_utils.py", """                    indent(
-                        _fill(
-                            set_default_doc(
-                                (name, _param), emit_default_doc=emit_default_doc
-                            )[1]["doc"]
-                        ),
+                        _fill(doc),
                         tab,
                     )""", """                    indent(wrapped_doc, tab)""")]),
     dict(id="wrapcont-via-local-emitted-raw", kind=B, props=["C18"], expect="WRAP-CONT", edits=[("docstring_utils.py",
          """    elif style == "numpydoc":
         return "\\n".join(""", """    elif style == "numpydoc":
-        wrapped_doc = _fill(set_default_doc((name, _param), emit_default_doc=emit_default_doc)[1]["doc"]) if emit_doc and _param.get("doc") else None
+        wrapped_doc = _fill(doc) if emit_doc and doc else None
         return "\\n".join("""), ("docstring_utils.py", """                    indent(
-                        _fill(
-                            set_default_doc(
-                                (name, _param), emit_default_doc=emit_default_doc
-                            )[1]["doc"]
-                        ),
+                        _fill(doc),
                         tab,
                     )""", """                    wrapped_doc""")]),
     dict(id="rejoin-dehyphenate", kind=B, props=["C18"], expect="REJOIN-UNIFORM", edits=[("docstring_parsers.py",
@@ -1121,13 +1107,25 @@ def extract_default(
                 raise""")]),
     # ------------------------------------------------------------------ EMPTY-HOLE (C08, C17)
     dict(id="emptyhole-fallback-dropped", kind=B, props=["C08", "C17"], expect="EMPTY-HOLE", edits=[("defaults_utils.py",
-         """                default=(quote(_param["default"]) or '""')  # `quote` leaves the empty string bare""",
+         """                default=(
+                    '""'  # `quote` leaves the empty string bare
+                    if _param["default"] == ""
+                    else quote(_param["default"])
+                )""",
          """                default=quote(_param["default"])""")]),
     dict(id="emptyhole-conditional-form", kind=N, props=["C08", "C17"], expect="silent", edits=[("defaults_utils.py",
-         """                default=(quote(_param["default"]) or '""')  # `quote` leaves the empty string bare""",
+         """                default=(
+                    '""'  # `quote` leaves the empty string bare
+                    if _param["default"] == ""
+                    else quote(_param["default"])
+                )""",
          """                default=('""' if _param["default"] == "" else quote(_param["default"]))""")]),
     dict(id="emptyhole-quote-handles-empty", kind=N, props=["C08", "C17"], expect="silent", edits=[("defaults_utils.py",
-         """                default=(quote(_param["default"]) or '""')  # `quote` leaves the empty string bare""",
+         """                default=(
+                    '""'  # `quote` leaves the empty string bare
+                    if _param["default"] == ""
+                    else quote(_param["default"])
+                )""",
          """                default=quote(_param["default"])"""), ("pure_utils.py",
          """    if s is None or len(s) == 0 or s[0] == s[-1] and s[0] in frozenset(("'", '"')):
         return s""", """    if s is None or len(s) > 0 and s[0] == s[-1] and s[0] in frozenset(("'", '"')):
@@ -1249,5 +1247,57 @@ def extract_default(
         try:""", """    if isinstance(_param["default"], str) and not code_quoted(_param["default"]) and False:
         return
     if isinstance(_param["default"], AST):
+        try:""")]),
+    # ---- round 7: PROSE-GATE, FALSY through a pass-through helper, FALSY in emit.function, nodeflow behind AST-LEAK
+    dict(id="prosegate-line-only-with-prose", kind=B, props=["C01"], expect="PROSE-GATE", edits=[("docstring_utils.py",
+         """                            if emit_doc and doc
+                            else None,""", """                            if emit_doc and _param.get("doc")
+                            else None,""")]),
+    dict(id="prosegate-writer-leaves-without-doc-key", kind=B, props=["C01"], expect="PROSE-GATE", edits=[("defaults_utils.py",
+         """    if _param is None or "doc" not in _param and "default" not in _param:""", """    if _param is None or "doc" not in _param:""")]),
+    dict(id="prosegate-writer-leaves-on-empty-prose", kind=B, props=["C01"], expect="PROSE-GATE", edits=[("defaults_utils.py",
+         """    _param = dict(_param)  # a copy: the caller's IR is left as it was given
+""", """    if not _param.get("doc"):
+        return name, _param
+    _param = dict(_param)  # a copy: the caller's IR is left as it was given
+""")]),
+    dict(id="prosegate-neutral-test-on-written-text-length", kind=N, props=["C01"], expect="silent", edits=[("docstring_utils.py",
+         """                            if emit_doc and doc
+                            else None,""", """                            if emit_doc and doc is not None and len(doc) > 0
+                            else None,""")]),
+    dict(id="prosegate-neutral-default-absent-exit-first", kind=N, props=["C01", "C17"], expect="silent", edits=[("defaults_utils.py",
+         """    if _param is None or "doc" not in _param and "default" not in _param:""", """    if _param is None or not ("doc" in _param or "default" in _param):""")]),
+    dict(id="falsy-quote-or-fallback", kind=B, props=["C01", "C17", "C08"], expect="FALSY", edits=[("defaults_utils.py",
+         """                default=(
+                    '""'  # `quote` leaves the empty string bare
+                    if _param["default"] == ""
+                    else quote(_param["default"])
+                )""", """                default=(quote(_param["default"]) or '""')""")]),
+    dict(id="falsy-neutral-empty-compared-after-isinstance", kind=N, props=["C01", "C17", "C08"], expect="silent", edits=[("defaults_utils.py",
+         """                    if _param["default"] == ""
+                    else quote(_param["default"])""", """                    if isinstance(_param["default"], str) and _param["default"] == ""
+                    else quote(_param["default"])""")]),
+    dict(id="falsy-return-default-truth-test", kind=B, props=["C03", "C06"], expect="FALSY", edits=[("emit.py",
+         """        not in (None, "")
+        else None""", """        else None""")]),
+    dict(id="falsy-neutral-return-default-two-comparisons", kind=N, props=["C03", "C06"], expect="silent", edits=[("emit.py",
+         """        not in (None, "")
+        else None""", """        not in ("", None)
+        else None""")]),
+    dict(id="astleak-neutral-local-alias", kind=N, props=["C03", "C07"], expect="silent", edits=[("docstring_parsers.py",
+         """    if isinstance(_param["default"], AST):
+        try:
+            _param["default"] = ast.literal_eval(_param["default"])""", """    current = _param["default"]
+    if isinstance(current, AST):
+        try:
+            _param["default"] = ast.literal_eval(current)""")]),
+    dict(id="astleak-alias-stored-unconverted", kind=B, props=["C03", "C07"], expect="AST-LEAK", edits=[("docstring_parsers.py",
+         """    if isinstance(_param["default"], AST):
+        try:""", """    current = _param["default"]
+    if isinstance(current, AST) and _param.get("typ") is None:
+        try:""")]),
+    dict(id="astleak-helper-converts-constants-only", kind=B, props=["C03", "C07"], expect="AST-LEAK", edits=[("docstring_parsers.py",
+         """    if isinstance(_param["default"], AST):
+        try:""", """    if isinstance(_param["default"], (ast.Constant, ast.Num, ast.Str)):
         try:""")]),
 ]
